@@ -239,6 +239,10 @@ func mkFrame(m *gmsg, dotu bool, tag uint16) []byte {
 	return append([]byte{}, fc.Pkt...)
 }
 
+// a Tversion in the middle of a stream cancels the requests still executing (their replies are
+// dropped): such streams are judged by what is delivered, not by the replies
+var lastStreamRenegotiates bool
+
 // buildStream: setup frames (sent one at a time, awaited) + the measured stream
 func buildStream(msize uint32, dotu bool, nmsg int, bad int) (setup [][]byte, stream []byte, nframes int) {
 	ver := "9P2000"
@@ -250,9 +254,33 @@ func buildStream(msize uint32, dotu bool, nmsg int, bad int) (setup [][]byte, st
 	setup = append(setup, mkFrame(&gmsg{kind: go9p.Twalk, a: 0, b: 1, names: [][]byte{[]byte("file")}}, dotu, 2))
 	setup = append(setup, mkFrame(&gmsg{kind: go9p.Topen, a: 1, b: go9p.ORDWR}, dotu, 3))
 	tag := uint16(10)
+	// some streams renegotiate in the middle: a Tversion switching the dialect (the receive loop
+	// answers it itself and must decode what follows in the same read with the new dialect)
+	switchAt := -1
+	if rng.Intn(3) == 0 && nmsg > 4 {
+		switchAt = 1 + rng.Intn(nmsg-2)
+	}
+	lastStreamRenegotiates = switchAt >= 0
 	for i := 0; i < nmsg; i++ {
+		if i == switchAt {
+			dotu = !dotu
+			v := "9P2000"
+			if dotu {
+				v = "9P2000.u"
+			}
+			stream = append(stream, mkFrame(&gmsg{kind: go9p.Tversion, a: uint64(msize), s1: []byte(v)}, false, go9p.NOTAG)...)
+			nframes++
+		}
 		var m *gmsg
-		switch rng.Intn(7) {
+		k := rng.Intn(7)
+		if switchAt >= 0 && i > switchAt && i <= switchAt+3 {
+			k = 7 + rng.Intn(2) // messages whose layout differs between the dialects
+		}
+		switch k {
+		case 7:
+			m = &gmsg{kind: go9p.Tcreate, a: 0, s1: []byte(fmt.Sprintf("n%d", i)), b: 0644, c: 1, s2: []byte("")}
+		case 8:
+			m = &gmsg{kind: go9p.Twstat, a: 0, dir: go9p.Dir{Name: "w", Uid: "u", Gid: "g", Muid: "m"}}
 		case 0:
 			m = &gmsg{kind: go9p.Tstat, a: uint64(rng.Intn(2))}
 		case 1:
@@ -417,6 +445,14 @@ func runRecvCase(msize uint32, dotu bool, setup [][]byte, stream []byte, segs []
 		if bad == 0 && len(c.frames())-nsetup >= nframes {
 			break
 		}
+		if bad == 9 {
+			ops.mu.Lock()
+			nd := len(ops.recs) - nsetupRecs
+			ops.mu.Unlock()
+			if nd >= nframes {
+				break
+			}
+		}
 		time.Sleep(50 * time.Microsecond)
 	}
 	time.Sleep(300 * time.Microsecond)
@@ -424,7 +460,10 @@ func runRecvCase(msize uint32, dotu bool, setup [][]byte, stream []byte, segs []
 	if c.isClosed() {
 		st = "closed"
 	}
-	if stalled || (bad == 0 && !c.isClosed() && len(c.frames())-nsetup < nframes) {
+	ops.mu.Lock()
+	ndeliv := len(ops.recs) - nsetupRecs
+	ops.mu.Unlock()
+	if stalled || (bad == 0 && !c.isClosed() && len(c.frames())-nsetup < nframes) || (bad == 9 && !c.isClosed() && ndeliv < nframes) {
 		st = "stalled" // the server stopped reading or answering although the stream is valid
 	}
 	c.mu.Lock()
@@ -490,6 +529,9 @@ func modeRecv(tier string, args []string) {
 			nmsg = 8 + rng.Intn(8)
 		}
 		setup, stream, nframes := buildStream(msize, dotu, nmsg, bad)
+		if lastStreamRenegotiates && bad == 0 {
+			bad = 9
+		}
 		add := func(points []int) {
 			jobs = append(jobs, job{msize, dotu, setup, stream, cut(stream, points), nframes, bad})
 		}
